@@ -40,6 +40,7 @@ Additions for scoring/main.py (select_next_plate, score_chunk, ChunkedScoresHold
   `if c`, c : opt (list T)   truthiness of an optional list: false for None and for [] (opt_list_truthy)
   [.. for x in L if P]  where P may raise (a single `if` that is not an and/or): res_filter, P evaluated element by
                       element from the left, the first exception aborts; the element expression still must not raise
+  `a[i] = v`, a : list   with cfg["index_error"] = tag: list_set, IndexError (Err tag) when i is outside -len..len-1
   cfg["coerce"]       [(from type, to type, template over {x})]: an upcast applied where the `to` type is needed
                       (subclass used as its base class), also pointwise under `list` and `dict`
 """
@@ -524,6 +525,13 @@ class Tr:
             if isinstance(tgt, ast.Subscript) and isinstance(tgt.value, ast.Name):      # d[k] = v on a `dict T`
                 d = tgt.value.id
                 dt = env.get(d)
+                if dt is not None and dt[0] == "list" and self.cfg.get("index_error") is not None and self.M["type"] == "result":
+                    # a[i] = v on a list / numpy array: IndexError (tag cfg["index_error"]) outside -len..len-1
+                    ii, it = self.expr(tgt.slice, env, hoist)
+                    vv, vt = self.expr(st.value, env, hoist)
+                    txt = "%sdor %s <- list_set (%d) %s %s %s;\n" % (ind, d, self.cfg["index_error"], d, self.need(ii, it, ("Z",), hoist),
+                                                                     self.need(vv, vt, dt[1], hoist))
+                    return self.bind_hoist(hoist, txt, ind) + self.block(rest, env, k, ind)
                 if dt is None or dt[0] not in ("dict", "dictof"):
                     raise Unsupported("subscript assignment: " + ast.unparse(st))
                 kk, kt = self.expr(tgt.slice, env, hoist)
